@@ -3,12 +3,16 @@
 package verifharness
 
 import (
+	"bytes"
 	"fmt"
 	"math/rand"
 	"os"
 	"path/filepath"
+	"regexp"
+	"strconv"
 	"strings"
 	"testing"
+	"time"
 
 	"github.com/markusressel/fan2go/internal"
 	"github.com/markusressel/fan2go/internal/configuration"
@@ -81,6 +85,14 @@ func TestDriveC17(t *testing.T) {
 		}
 		must(os.WriteFile(filepath.Join(root, "order"), []byte(strings.Join(orderNames, "\n")+"\n"), 0644))
 		os.Setenv("VERIF_HWMON_ROOT", root)
+		// `fan2go detect` on this tree (a real process): the listing the user reads the index / channel from
+		if i%envInt("VERIF_DETECT_EVERY", 5) == 0 {
+			must(os.WriteFile(filepath.Join(dir, "fan2go.yaml"), []byte("dbPath: "+filepath.Join(dir, "d.db")+"\n"), 0644))
+			var outb bytes.Buffer
+			cmd := StartChild("cli", []string{"-c", filepath.Join(dir, "fan2go.yaml"), "--no-style", "--no-color", "detect"}, root, filepath.Join(dir, "cli.trace"), &outb)
+			code, _, _ := waitExit(cmd, 30*time.Second)
+			rec.Emit(Ev{"ev": "Detect", "tree": tree, "exit": code, "listing": parseDetect(outb.String())})
+		}
 		// selector: existing and non-existing devices
 		platform := names[r.Intn(nc)]
 		if r.Intn(8) == 0 {
@@ -230,4 +242,49 @@ func TestDriveC17(t *testing.T) {
 		rec.Emit(ev)
 		os.RemoveAll(dir)
 	}
+}
+
+// parseDetect: the chips `fan2go detect` lists, with their fan rows (index, channel, rpm, pwm) and sensor rows
+// (index, temperature number taken from the file name, value); -1 stands for anything that is not a number
+func parseDetect(out string) []Ev {
+	var chips []Ev
+	var cur Ev
+	section := ""
+	num := func(s string) int {
+		v, err := strconv.Atoi(s)
+		if err != nil {
+			return -1
+		}
+		return v
+	}
+	tempRe := regexp.MustCompile(`\(temp(\d+)_input\)`)
+	for _, ln := range strings.Split(out, "\n") {
+		f := strings.Fields(ln)
+		switch {
+		case len(f) >= 2 && f[0] == ">":
+			name := f[1]
+			if k := strings.Index(name, "-"); k > 0 {
+				name = name[:k]
+			}
+			cur = Ev{"name": name, "fans": [][]int{}, "temps": [][]int{}}
+			chips = append(chips, cur)
+			section = ""
+		case len(f) > 0 && f[0] == "Fans":
+			section = "fans"
+		case len(f) > 0 && f[0] == "Sensors":
+			section = "temps"
+		case cur != nil && section == "fans" && len(f) >= 6:
+			cur["fans"] = append(cur["fans"].([][]int), []int{num(f[0]), num(f[1]), num(f[3]), num(f[4])})
+		case cur != nil && section == "temps" && len(f) >= 4:
+			tn := -1
+			if m := tempRe.FindStringSubmatch(ln); m != nil {
+				tn = num(m[1])
+			}
+			cur["temps"] = append(cur["temps"].([][]int), []int{num(f[0]), tn, num(f[len(f)-1])})
+		}
+	}
+	if chips == nil {
+		chips = []Ev{}
+	}
+	return chips
 }
